@@ -3,6 +3,7 @@ package sim
 import (
 	"fmt"
 	"sort"
+	"strings"
 
 	"pgregory.net/rapid"
 )
@@ -114,22 +115,23 @@ func (c *Case) Step(name string) *StepSpec {
 
 // GenOpts steers the shared DagCase generator.
 type GenOpts struct {
-	MaxSteps   int
-	MinWidth   int  // at least this many mutually independent roots (C15)
-	Retries    bool // generate retry policies
-	Preconds   bool
-	SetupFails bool
-	DevFull    bool // some retried steps write their stdout to /dev/full (the write-back of the step's output fails at every teardown)
-	Redirects  bool // stdout:/stderr: files (paths inside the run's scratch directory: not for cases whose steps are re-used by a later run)
-	Handlers   bool
-	Stop       bool // maybe inject a stop
-	Repeat     bool // maybe generate repeating steps (only with Stop)
-	IgnoreSig  bool
-	Timeout    bool
-	ForceMax   bool // always draw a binding maxActiveRuns
-	NoFail     bool // every step succeeds eventually
-	SignalOn   bool
-	AlwaysStop bool
+	MaxSteps       int
+	MinWidth       int  // at least this many mutually independent roots (C15)
+	Retries        bool // generate retry policies
+	Preconds       bool
+	SetupFails     bool
+	LookalikeNames bool // sometimes two step names differ only in case or a trailing blank
+	DevFull        bool // some retried steps write their stdout to /dev/full (the write-back of the step's output fails at every teardown)
+	Redirects      bool // stdout:/stderr: files (paths inside the run's scratch directory: not for cases whose steps are re-used by a later run)
+	Handlers       bool
+	Stop           bool // maybe inject a stop
+	Repeat         bool // maybe generate repeating steps (only with Stop)
+	IgnoreSig      bool
+	Timeout        bool
+	ForceMax       bool // always draw a binding maxActiveRuns
+	NoFail         bool // every step succeeds eventually
+	SignalOn       bool
+	AlwaysStop     bool
 }
 
 var stepNames = []string{"a", "b", "c", "d", "e", "f", "g", "h", "i", "j", "k", "l", "m", "n", "o", "p"}
@@ -311,7 +313,38 @@ func Gen(t *rapid.T, o GenOpts) Case {
 			}
 		}
 	}
+	if o.LookalikeNames && len(c.Steps) >= 2 && rapid.IntRange(0, 3).Draw(t, "lookalike") == 0 {
+		// two steps whose names differ only in capitalisation or a surrounding
+		// blank: distinct names all the same
+		i := rapid.IntRange(0, len(c.Steps)-1).Draw(t, "lookA")
+		j := rapid.IntRange(0, len(c.Steps)-2).Draw(t, "lookB")
+		if j >= i {
+			j++
+		}
+		nn := strings.ToUpper(c.Steps[i].Name)
+		if rapid.IntRange(0, 2).Draw(t, "lookBlank") == 0 {
+			nn = c.Steps[i].Name + " "
+		}
+		c.Rename(c.Steps[j].Name, nn)
+	}
 	return c
+}
+
+// Rename gives a step another name everywhere it is mentioned.
+func (c *Case) Rename(old, nn string) {
+	for k := range c.Steps {
+		if c.Steps[k].Name == old {
+			c.Steps[k].Name = nn
+		}
+		for d := range c.Steps[k].Depends {
+			if c.Steps[k].Depends[d] == old {
+				c.Steps[k].Depends[d] = nn
+			}
+		}
+	}
+	if c.Stop != nil && c.Stop.Step == old {
+		c.Stop.Step = nn
+	}
 }
 
 func genStop(t *rapid.T, c *Case, o GenOpts) *StopSpec {
